@@ -22,6 +22,11 @@ def run(tier, seed, res, lean):
     outs = pmap(suite_sched.run_shard, [(seed * 3301 + i + 71, depth, per, tier != 'quick') for i in range(shards)])
     stats = merge_stats([{k: v for k, v in o[0].items() if k != 'size'} for o in outs])
     problems = [p for o in outs for p in o[1]]
+    # the first calls on a fresh pipeline object (lazy compilation of the fields) from two threads, interleaved line by line inside
+    # the compiler and the layer code
+    fu = pmap(suite_sched.run_first_use, [(seed * 977 + i + 5, 6 if tier == 'quick' else 40) for i in range(16)])
+    problems += [p for o in fu for p in o[1]]
+    first_use_runs = sum(o[0]['first_use_runs'] for o in fu)
     for p in problems[:6]:
         kind = 'c11-lock' if 'without holding its lock' in p['msg'] else 'c11-value'
         res.violations.append(Violation(kind, p['msg'][:400], {'suite': 'S-SCHED', **p}))
@@ -30,7 +35,7 @@ def run(tier, seed, res, lean):
         sizes[o[0]['size']] = sizes.get(o[0]['size'], 0) + 1
     res.coverage.update({
         'evaluations': stats['schedules'], 'distinct_nontrivial': stats['schedules'], 'rule': RULE,
-        'programs': stats['scenarios'], 'disagreements_checked': len(problems),
+        'programs': stats['scenarios'], 'disagreements_checked': len(problems), 'first_use_runs': first_use_runs,
         'samples': [{'scenario': suite_sched.scenario((1, False)), 'plans': [[['x', 'a']], [['x', 'b']]], 'schedule': [0, 0, 1, 1, 0, 1]}],
         'distribution': {'gates_passed': stats['gates'], 'cache_sizes': sizes, 'threads': stats['threads']},
     })
